@@ -126,6 +126,40 @@ func counterSum(reg *prometheus.Registry, name string) float64 {
 	return total
 }
 
+// counterSeries returns the value of every series of a counter, keyed by its label pairs.
+func counterSeries(reg *prometheus.Registry, name string) map[string]float64 {
+	out := map[string]float64{}
+	mfs, err := reg.Gather()
+	if err != nil {
+		return out
+	}
+	for _, mf := range mfs {
+		if strings.HasSuffix(mf.GetName(), "_"+name) {
+			for _, m := range mf.GetMetric() {
+				var sb strings.Builder
+				for _, lp := range m.GetLabel() {
+					fmt.Fprintf(&sb, "%s=%q;", lp.GetName(), lp.GetValue())
+				}
+				out[sb.String()] += m.GetCounter().GetValue()
+			}
+		}
+	}
+	return out
+}
+
+// warmDoc is the event with every field a mask metric label is read from set to a value of its own.
+func warmDoc(c Case, doc *vkit.JNode) string {
+	w := doc.Clone()
+	for _, m := range c.Cfg.Masks {
+		for _, l := range m.MetricLabels {
+			if w.Get(l) == nil {
+				w.Set(l, &vkit.JNode{Kind: 's', Str: "warm-" + l})
+			}
+		}
+	}
+	return w.Encode()
+}
+
 func run(c Case) *vkit.Outcome {
 	o := vkit.NewOutcome()
 	doc, err := vkit.ParseJSON([]byte(c.Doc))
@@ -210,6 +244,18 @@ func run(c Case) *vkit.Outcome {
 		o.Class("instance-reused")
 	}
 	var st caseStats
+	if c.Warm {
+		o.Class("earlier-event-carried-the-metric-label-fields")
+		wroot, werr := fdkit.NewRoot(warmDoc(c, doc))
+		if werr == nil {
+			if rec, stack := fdkit.CatchPanic(func() { ap.Do(&pipeline.Event{Root: wroot}) }); rec != nil {
+				insaneJSON.Release(wroot)
+				o.Failf(P, "do-panics:"+firstFileDFrame(stack), "Do panicked on the earlier event: %v\nconfig %s\nevent %s\n%s", rec, cj, warmDoc(c, doc), shortStack(stack))
+				return o
+			}
+			insaneJSON.Release(wroot)
+		}
+	}
 	for round := 0; round < rounds && !o.Failed(); round++ {
 		checkEvent(o, c, cj, doc, ms, lm, ap, reg, round, &st)
 	}
@@ -231,10 +277,17 @@ func run(c Case) *vkit.Outcome {
 	for _, l := range st.labels() {
 		o.Class(l)
 	}
+	if st.labelledSeriesMoved {
+		o.Class("labelled-mask-metric-moved")
+		if c.Warm {
+			o.Class("labelled-mask-metric-moved-after-an-earlier-event-with-the-label-fields")
+		}
+	}
 	return o
 }
 
 type caseStats struct {
+	labelledSeriesMoved bool
 	strongProcessed    bool
 	excludedMatch      bool
 	sameSecretExcluded bool
@@ -314,9 +367,13 @@ func checkEvent(o *vkit.Outcome, c Case, cj []byte, doc *vkit.JNode, ms []*maskM
 	defer insaneJSON.Release(root)
 	ev := &pipeline.Event{Root: root}
 	before := map[string]float64{pluginMetric: counterSum(reg, pluginMetric)}
+	beforeSeries := map[string]map[string]float64{}
 	for _, m := range c.Cfg.Masks {
 		if m.MetricName != "" {
 			before[m.MetricName] = counterSum(reg, m.MetricName)
+			if len(m.MetricLabels) > 0 {
+				beforeSeries[m.MetricName] = counterSeries(reg, m.MetricName)
+			}
 		}
 	}
 	var res pipeline.ActionResult
@@ -542,6 +599,38 @@ func checkEvent(o *vkit.Outcome, c Case, cj []byte, doc *vkit.JNode, ms []*maskM
 	}
 	for i, m := range c.Cfg.Masks {
 		judge(fmt.Sprintf("mask #%d", i), m.AppliedField, m.AppliedValue, m.MetricName, must[i], may[i])
+		if len(m.MetricLabels) == 0 || m.MetricName == "" {
+			continue
+		}
+		// the series that moved is the one of THIS event: a label read from an absent field is "not_set",
+		// one read from an untouched string field is that string
+		want := map[string]string{}
+		for _, l := range m.MetricLabels {
+			n := 0
+			for _, k := range doc.Keys {
+				if k == l {
+					n++
+				}
+			}
+			a, b := doc.Get(l), got.Get(l)
+			switch {
+			case n == 0 && b == nil:
+				want[l] = "not_set"
+			case n == 1 && a != nil && b != nil && a.Kind == 's' && b.Kind == 's' && a.Str == b.Str:
+				want[l] = a.Str
+			}
+		}
+		for series, v := range counterSeries(reg, m.MetricName) {
+			if v == beforeSeries[m.MetricName][series] {
+				continue
+			}
+			st.labelledSeriesMoved = true
+			for l, w := range want {
+				if !strings.Contains(series, fmt.Sprintf("%s=%q;", l, w)) {
+					o.Failf(P, "applied-metric-on-another-events-series", "mask #%d: metric %s moved in series {%s}, the event's label %s is %q\n%s", i, m.MetricName, series, l, w, ctx())
+				}
+			}
+		}
 	}
 }
 
